@@ -180,15 +180,6 @@ def blocked(marking, envkind):
 
 # --- structural oracle: every call of a template value goes through environment.call ------------
 
-_INTERNAL_FUNCS = re.compile(
-    r"^(environment|context|template|included_template|parent_template|gen|agen|t_\d+|_loop_vars|_block_vars|"
-    r"undefined|resolve|resolve_or_missing|Markup|escape|str|dict|str_join|markup_join|concat|to_string|identity|"
-    r"Macro|LoopContext|AsyncLoopContext|Namespace|TemplateReference|auto_await|auto_aiter|auto_to_list|"
-    r"cond_expr_undefined|loop|macro|root|super|caller|TemplateRuntimeError|missing|internalcode|"
-    r"block_\w+|_get_default_module|_get_default_module_async|Undefined|UndefinedError|TemplateNotFound|next|getattr|len)$"
-)
-
-
 def call_structure_violations(code):
     out = []
     for node in ast.walk(ast.parse(code)):
@@ -234,8 +225,7 @@ def check_case(case):
     called = [e for e in log if e[0] == name]
     names = [e[0] for e in log]
     # no callable the environment deems unsafe may ever run, whichever one the case is about
-    unsafe_names = {n for n, (pn, mk) in ((k, v) for k, v in g.CALLABLES.items()) if blocked(mk, case["env"])}
-    unsafe_py = {g.CALLABLES[k][0] for k in unsafe_names}
+    unsafe_py = {pyname for pyname, mk in g.CALLABLES.values() if blocked(mk, case["env"])}
     ran_unsafe = [e for e in log if e[0] in unsafe_py]
     if ran_unsafe:
         raise core.Violation("unsafe callable was invoked: %r (log %r)%s" % (ran_unsafe[:3], log[:6], where))
